@@ -133,9 +133,12 @@ def mark_orphans(mismatches):
     first = {}
     for m in mismatches:
         if 'OrphanPot' in m['names'] or ('fault' in m['names'] and 'OrphanPot' in m.get('info', '')):
-            first[m['tid']] = min(first.get(m['tid'], 10 ** 9), m['step'])
+            key = (m['tid'], m['step'] // 1000)          # the two runs of a pair number their steps separately (B: 1000 +)
+            first[key] = min(first.get(key, 10 ** 9), m['step'])
+    tids = {k[0] for k in first}
     for m in mismatches:
-        if m['tid'] in first and (m['step'] % 1000 >= first[m['tid']] % 1000 or m['clause'].startswith('twin-')):
+        key = (m['tid'], m['step'] // 1000)
+        if (key in first and m['step'] >= first[key]) or (m['tid'] in tids and m['clause'].startswith('twin-')):
             # (the relation between two runs is decided after both: if one of them ended in the ownerless-pot situation the
             # relation is not asserted either)
             m['orphan'] = True
